@@ -27,32 +27,32 @@ type clause struct {
 }
 
 type Contract struct {
-	key       string
-	pkg       string
-	short     string
-	requires  []clause
-	ensures   []clause
-	modifies  []*node
-	loops     map[string][]clause
-	asserts   map[string][]clause // assert_at <callee>#n
-	inline    bool
-	allocates bool
-	atomic    string
-	blocks    string
-	file      string
-	line      int
-	hasMod    bool
-	ghostPre  []string
-	ghostSet  []ghostAssign
-	ghostExit []ghostAssign
-	allocGlobs []string
-	selects    []string // channels the function must receive from in a select
-	blockExt   []string // external blocking calls the function is allowed to make (with their wake-up mechanism)
+	key               string
+	pkg               string
+	short             string
+	requires          []clause
+	ensures           []clause
+	modifies          []*node
+	loops             map[string][]clause
+	asserts           map[string][]clause // assert_at <callee>#n
+	inline            bool
+	allocates         bool
+	atomic            string
+	blocks            string
+	file              string
+	line              int
+	hasMod            bool
+	ghostPre          []string
+	ghostSet          []ghostAssign
+	ghostExit         []ghostAssign
+	allocGlobs        []string
+	selects           []string // channels the function must receive from in a select
+	blockExt          []string // external blocking calls the function is allowed to make (with their wake-up mechanism)
 	blocksCancellable bool
 	blocksNever       bool
 	tokens            []string // local channel variables whose messages are token-tracked (all senders known)
 	sendsOnce         []string // (closure contracts) channels the goroutine sends on exactly once
-	assumed           string // non-empty: the body is not verified against this contract (reason); reported as an assumption
+	assumed           string   // non-empty: the body is not verified against this contract (reason); reported as an assumption
 }
 
 func (c *Contract) allocatesRegion(r string) bool {
@@ -127,10 +127,10 @@ type World struct {
 	lockInvs      []*lockInv
 	chanElems     []types.Type
 	guardedMaps   []*types.Map
-	lockMemo  map[*ssa.Function]int
-	snapTypes map[string]map[string]bool   // package|variable name -> types it had in the snapshot
-	ckeyAlias map[string]string            // current contract key of a function -> the key its contract was written under
-	renames   map[string]map[string]string // function -> (name in the contracts -> current name), pure renames only
+	lockMemo      map[*ssa.Function]int
+	snapTypes     map[string]map[string]bool   // package|variable name -> types it had in the snapshot
+	ckeyAlias     map[string]string            // current contract key of a function -> the key its contract was written under
+	renames       map[string]map[string]string // function -> (name in the contracts -> current name), pure renames only
 	blockMemo     map[*ssa.Function]int
 }
 
